@@ -33,7 +33,10 @@ impl Future for CtrlC {
     type Output = ();
     fn poll(self: Pin<&mut Self>, cx: &mut Context<'_>) -> Poll<()> {
         simrt::rt::with(|rt| {
+            // like the real crate: one flag, set by the handler, consumed by the poll that sees
+            // it (signals coalesce; the future can be awaited again for the next signal)
             if rt.signal.fired {
+                rt.signal.fired = false;
                 Poll::Ready(())
             } else {
                 rt.signal.wakers.push(cx.waker().clone());
@@ -47,5 +50,13 @@ impl Future for CtrlC {
 impl Drop for CtrlC {
     fn drop(&mut self) {
         let _ = simrt::rt::try_with(|rt| rt.signal.registered = false);
+    }
+}
+
+
+impl futures_core::Stream for CtrlC {
+    type Item = ();
+    fn poll_next(self: Pin<&mut Self>, cx: &mut Context<'_>) -> Poll<Option<()>> {
+        Future::poll(self, cx).map(Some)
     }
 }
